@@ -1,4 +1,4 @@
 import WpModel.Drive.Loop
 import WpModel.Drive.Outline
 
-def main : IO Unit := Wp.Drive.runDriver [Wp.Drive.Outline.handle, Wp.Drive.Outline.handleDoc]
+def main : IO Unit := Wp.Drive.runDriver [Wp.Drive.Outline.handle, Wp.Drive.Outline.handleDoc, Wp.Drive.Outline.handleAttach]
